@@ -381,8 +381,14 @@ impl WriteBuffer {
                 fault_scope: self.fault_scope,
             };
 
+            #[cfg(feature = "verif")]
+            let verif_token = crate::verif::token();
             let handle = thread::spawn(move || {
+                #[cfg(feature = "verif")]
+                crate::verif::adopt(verif_token, "worker");
                 write_buffer_worker(ctx, flush_rx);
+                #[cfg(feature = "verif")]
+                crate::verif::retire("worker");
             });
 
             self.worker_handles.get_mut().push(handle);
@@ -394,11 +400,27 @@ impl WriteBuffer {
         let sharded_buffers = self.sharded_buffers.clone();
         let retirement_queue = Arc::clone(&self.retirement_queue);
 
+        #[cfg(feature = "verif")]
+        let verif_token = crate::verif::token();
         let periodic_handle = thread::spawn(move || {
+            #[cfg(feature = "verif")]
+            crate::verif::adopt(verif_token, "periodic");
             let interval = WRITE_BUFFER_FLUSH_INTERVAL;
+            #[cfg(feature = "verif")]
+            let interval = if crate::verif::flag("fast_poll") {
+                Duration::from_millis(2)
+            } else {
+                interval
+            };
 
             while !shutdown.load(Ordering::Acquire) {
                 thread::sleep(interval);
+                #[cfg(feature = "verif")]
+                if crate::verif::tick(&|| shutdown.load(Ordering::Acquire))
+                    == crate::verif::Tick::Skip
+                {
+                    continue;
+                }
 
                 let retirements_pending = !retirement_queue.pending.lock().is_empty();
                 for (worker_id, channel) in worker_channels.iter().enumerate() {
@@ -415,6 +437,8 @@ impl WriteBuffer {
                     }
                 }
             }
+            #[cfg(feature = "verif")]
+            crate::verif::retire("periodic");
         });
 
         *self.periodic_flush_handle.get_mut() = Some(periodic_handle);
@@ -427,9 +451,15 @@ impl WriteBuffer {
         let format = get_format_ref(self.format_version);
 
         loop {
+            #[cfg(feature = "verif")]
+            crate::verif::point("ff_loop", 0, 0);
             let mut responses = Vec::with_capacity(pending_workers.len());
             for worker_id in pending_workers.drain(..) {
                 let (tx, rx) = bounded(1);
+                #[cfg(feature = "verif")]
+                crate::verif::wait_until("ff_send", &|| {
+                    !self.worker_channels[worker_id].is_full()
+                });
                 self.worker_channels[worker_id]
                     .send(FlushRequest {
                         response: Some(tx),
@@ -441,6 +471,8 @@ impl WriteBuffer {
 
             let mut first_error = None;
             for (worker_id, rx) in responses {
+                #[cfg(feature = "verif")]
+                crate::verif::wait_until("ff_recv", &|| !rx.is_empty());
                 match rx.recv() {
                     Ok(Ok(true)) => pending_workers.push(worker_id),
                     Ok(Ok(false)) => {}
@@ -473,6 +505,8 @@ impl WriteBuffer {
                 return Ok(());
             }
             if !pending_workers.is_empty() {
+                #[cfg(feature = "verif")]
+                crate::verif::yield_now("ff_backoff");
                 thread::sleep(Duration::from_micros(retry_delay_us));
                 retry_delay_us = (retry_delay_us * 2).min(1_000);
             }
@@ -496,13 +530,29 @@ impl WriteBuffer {
         // Ensure shutdown flag is set
         self.shutdown.store(true, Ordering::Release);
 
+        #[cfg(feature = "verif")]
+        if crate::verif::flag("fast_shutdown") {
+            // Wake the workers so they notice the shutdown flag at once instead of
+            // after their 500 ms receive timeout (same as a periodic tick landing now).
+            for channel in &self.worker_channels {
+                let _ = channel.try_send(FlushRequest {
+                    response: None,
+                    defer_retirements: false,
+                });
+            }
+        }
+
         if let Some(handle) = self.periodic_flush_handle.lock().take() {
+            #[cfg(feature = "verif")]
+            crate::verif::wait_until("join_periodic", &|| handle.is_finished());
             let _ = handle.join();
         }
 
         // Signal workers to stop and wait
         let handles = std::mem::take(&mut *self.worker_handles.lock());
         for handle in handles {
+            #[cfg(feature = "verif")]
+            crate::verif::wait_until("join_worker", &|| handle.is_finished());
             let _ = handle.join();
         }
 
@@ -578,6 +628,16 @@ fn write_buffer_worker(ctx: WorkerContext, flush_rx: Receiver<FlushRequest>) {
             break;
         }
 
+        #[cfg(feature = "verif")]
+        if crate::verif::current().is_some() {
+            crate::verif::wait_until("worker_recv", &|| {
+                !flush_rx.is_empty() || ctx.shutdown.load(Ordering::Acquire)
+            });
+            if flush_rx.is_empty() && ctx.shutdown.load(Ordering::Acquire) {
+                continue;
+            }
+        }
+
         // Wait for flush request with timeout to check shutdown periodically
         let req = match flush_rx.recv_timeout(Duration::from_millis(500)) {
             Ok(req) => req,
@@ -607,6 +667,8 @@ fn write_buffer_worker(ctx: WorkerContext, flush_rx: Receiver<FlushRequest>) {
                         eprintln!("feox: final write-buffer flush left pending retirements");
                         break;
                     }
+                    #[cfg(feature = "verif")]
+                    crate::verif::yield_now("final_backoff");
                     thread::sleep(Duration::from_micros(retry_delay_us));
                     retry_delay_us = (retry_delay_us * 2).min(1_000);
                 }
@@ -626,6 +688,8 @@ fn write_buffer_worker(ctx: WorkerContext, flush_rx: Receiver<FlushRequest>) {
                         );
                         break;
                     }
+                    #[cfg(feature = "verif")]
+                    crate::verif::yield_now("final_backoff");
                     thread::sleep(Duration::from_micros(retry_delay_us));
                     retry_delay_us = (retry_delay_us * 2).min(1_000);
                 }
@@ -656,6 +720,8 @@ fn flush_worker_shards(
         if entries.is_empty() {
             continue;
         }
+        #[cfg(feature = "verif")]
+        crate::verif::point("w_drained", shard_id as u64, entries.len() as u64);
 
         let mut entries = entries.into_iter();
         let mut shard_retries = Vec::new();
@@ -733,6 +799,8 @@ fn flush_pending_deletions(
     stats: &Arc<Statistics>,
     format: &dyn RecordFormat,
 ) -> Result<bool> {
+    #[cfg(feature = "verif")]
+    crate::verif::wait_until("lock_retire", &|| !retirement_queue.flush.is_locked());
     let _flush_guard = retirement_queue.flush.lock();
     let delete_operations = {
         let mut pending = retirement_queue.pending.lock();
@@ -795,6 +863,8 @@ fn process_deletions(
         }
 
         entry.record.retire_extent();
+        #[cfg(feature = "verif")]
+        crate::verif::point("d_retired", sector, 0);
         if entry.record.extent_has_readers() {
             retries.push(entry);
             continue;
@@ -804,6 +874,10 @@ fn process_deletions(
         marker_writes.push(entry);
     }
 
+    #[cfg(feature = "verif")]
+    if !marker_writes.is_empty() {
+        crate::verif::wait_until("lock_disk_w", &|| !disk_io.is_locked());
+    }
     if !marker_writes.is_empty() {
         match disk_io.write().retire_extents(&marker_extents) {
             Ok(()) => {
@@ -824,6 +898,10 @@ fn process_deletions(
         }
     }
 
+    #[cfg(feature = "verif")]
+    if !release_operations.is_empty() {
+        crate::verif::point("d_marked", release_operations.len() as u64, 0);
+    }
     let mut releasable = Vec::with_capacity(release_operations.len());
     for entry in release_operations {
         if entry.record.extent_has_readers() {
@@ -834,6 +912,10 @@ fn process_deletions(
     }
 
     releasable.sort_unstable_by_key(|entry| entry.record.sector.load(Ordering::Acquire));
+    #[cfg(feature = "verif")]
+    if !releasable.is_empty() {
+        crate::verif::point("d_release", releasable.len() as u64, 0);
+    }
     let mut free_space_guard = free_space.write();
     let mut group = Vec::with_capacity(releasable.len());
     let mut group_end = 0;
@@ -1008,6 +1090,11 @@ fn process_write_batch(
         }
     }
 
+    #[cfg(feature = "verif")]
+    if !batch_writes.is_empty() {
+        crate::verif::point("w_allocated", batch_writes.len() as u64, 0);
+        crate::verif::wait_until("lock_disk_w", &|| !disk_io.is_locked());
+    }
     if !batch_writes.is_empty() {
         let mut disk_guard = disk_io.write();
         for write in &prepared_writes {
@@ -1027,6 +1114,12 @@ fn process_write_batch(
 
         if journal_active {
             match disk_guard.write_allocation_journal(&journal_extents) {
+                #[cfg(feature = "verif")]
+                Ok(()) => {
+                    crash_at("after_allocation_intent");
+                    crate::verif::point("w_intent", 0, 0);
+                }
+                #[cfg(not(feature = "verif"))]
                 Ok(()) => crash_at("after_allocation_intent"),
                 Err(error @ FeoxError::IndeterminateWrite(_)) => {
                     return failed_batch_outcome(
@@ -1106,6 +1199,8 @@ fn process_write_batch(
                             (delay_us * rng.random_range(-10..=10)) / 100
                         };
                         let actual_delay = (delay_us + jitter).max(1);
+                        #[cfg(feature = "verif")]
+                        crate::verif::yield_now("write_retry");
                         thread::sleep(Duration::from_micros(actual_delay as u64));
                         delay_us *= 2;
                     } else {
@@ -1127,6 +1222,8 @@ fn process_write_batch(
             }
         }
 
+        #[cfg(feature = "verif")]
+        crate::verif::point("w_data", 0, 0);
         if journal_active {
             crash_at("before_allocation_journal_clear");
             if let Err(error) = disk_guard.clear_allocation_journal() {
@@ -1147,6 +1244,8 @@ fn process_write_batch(
             }
         }
 
+        #[cfg(feature = "verif")]
+        crate::verif::point("w_cleared", 0, 0);
         if has_deletions {
             crash_at("after_replacement_write");
         }
@@ -1160,6 +1259,8 @@ fn process_write_batch(
             write.entry.record.clear_value();
         }
         stats.record_write_flushed(prepared_writes.len() as u64);
+        #[cfg(feature = "verif")]
+        crate::verif::point("w_published", prepared_writes.len() as u64, 0);
     }
 
     let result = match first_error {
@@ -1293,6 +1394,8 @@ fn cleanup_failed_allocations(
         return Err(error);
     }
 
+    #[cfg(feature = "verif")]
+    crate::verif::point("w_scrubbed", 0, 0);
     let mut free_space = free_space.write();
     release_scrubbed_allocations(&mut free_space, allocations, stats)
 }
@@ -1408,6 +1511,19 @@ fn prepare_deferred_record_data(
     }
     let total_size = format.total_size(source.key.len(), source.value_len);
     let sectors = total_size.div_ceil(FEOX_BLOCK_SIZE);
+    #[cfg(feature = "verif")]
+    {
+        crate::verif::note("rd_pin", sector, sectors as u64);
+        crate::verif::point("rd_pinned", sector, sectors as u64);
+        crate::verif::wait_until("lock_disk_r", &|| !disk_io.is_locked_exclusive());
+    }
+    #[cfg(feature = "verif")]
+    let mut data = {
+        let data = disk_io.read().read_sectors_sync(sector, sectors as u64);
+        crate::verif::note("rd_release", sector, sectors as u64);
+        data?
+    };
+    #[cfg(not(feature = "verif"))]
     let mut data = disk_io.read().read_sectors_sync(sector, sectors as u64)?;
     drop(extent);
     if !sector_holds_record(&data, &source) {
